@@ -3,26 +3,48 @@ from .lib import *
 
 RULE = ("generated well-formed heads (versions 1.0/1.1, statuses 101..999, absent/empty/long/obs-text reason phrases, 0..128 fields "
         "and 129..140 fields for the limit, optional whitespace around values, empty values, obs-text, repeated names) followed by "
-        "arbitrary further bytes; through Flow<RecvResponse>::try_response. Prefixes: every prefix length for heads up to 700 bytes, "
+        "arbitrary further bytes; through Flow<RecvResponse>::try_response of a flow that reached RecvResponse by GET / HEAD / POST with body / "
+        "POST+Expect continued / POST+Expect given up (nothing or a partial 100 seen); interim statuses 101,102,103,199 on each of these. Prefixes: every prefix length for heads up to 700 bytes, "
         "otherwise every prefix within 3 bytes of a line end plus 60 random ones; each prefix is offered to a flow that has seen only "
         "shorter prefixes (the caller re-presents unconsumed bytes). 3xx heads with Location get every prefix after the Location line "
         "(known finding class partial-redirect). non-trivial = at least one strict prefix and the complete head were offered and the "
         "complete head was returned (or rejected for >128 fields); distinct = distinct heads")
 TRUSTED_BASE = COMMON_TRUSTED_BASE
 ASSUMPTIONS = ["status 100 belongs to C11", "httparse is modelled by hand (scalar semantics)"]
-_stats = {"nfields": {}, "redirect_with_location": 0, "over_limit": 0, "prefixes": 0}
+_stats = {"nfields": {}, "redirect_with_location": 0, "over_limit": 0, "prefixes": 0, "prelude": {}}
 REST = [b"", b"body bytes", b"HTTP/1.1 200 OK\r\n\r\n", b"\r\n\r\n", b"\x00\xff garbage"]
 
 
-def gen_one(rng, nfields=None, force_redirect=False):
+def prelude(rng, kind=None):
+    """How the flow got to RecvResponse: the head parser must not depend on it (except that a late 100 is C11's)."""
+    kind = kind or rng.choice(["get", "get", "get", "head", "post", "expect-continued", "expect-giveup", "expect-giveup", "expect-partial"])
+    _stats["prelude"][kind] = _stats["prelude"].get(kind, 0) + 1
+    if kind == "get":
+        return [op_new("GET"), "proceed", "write_head #4096", "proceed"]
+    if kind == "head":
+        return [op_new("HEAD"), "proceed", "write_head #4096", "proceed"]
+    if kind == "post":
+        return [op_new("POST", headers=[("content-length", "2")]), "proceed", "write_head #4096", "proceed", "write_body %s #100" % hx(b"hi"), "proceed"]
+    ops = [op_new("POST", headers=[("content-length", "2"), ("expect", "100-continue")]), "proceed", "write_head #4096", "proceed"]
+    if kind == "expect-continued":
+        ops += ["raw_try100 %s" % hx(b"HTTP/1.1 100 Continue\r\n\r\n"), "proceed"]
+    elif kind == "expect-partial":
+        ops += ["raw_try100 %s" % hx(b"HTTP/1.1 1"), "proceed"]       # the client stops waiting; the bytes seen so far are NOT part of the stream below
+    else:
+        ops += ["raw_try100 x", "proceed"]                              # the client stops waiting without having seen anything
+    return ops + ["write_body %s #100" % hx(b"hi"), "proceed"]
+
+
+def gen_one(rng, nfields=None, force_redirect=False, kind=None, status=None):
     if nfields is None:
         r = rng.random()
         nfields = rng.choice([0, 0, 1, 1, 2, 3, 4, 5, 8]) if r < 0.8 else rng.choice([30, 64, 127, 128]) if r < 0.93 else rng.choice([129, 130, 140])
     bucket = "0" if nfields == 0 else "1-8" if nfields <= 8 else "9-128" if nfields <= 128 else ">128"
     _stats["nfields"][bucket] = _stats["nfields"].get(bucket, 0) + 1
     extra = []
-    status = None
-    if force_redirect or rng.random() < 0.2:
+    if status is not None:
+        pass
+    elif force_redirect or rng.random() < 0.2:
         status = rng.choice([301, 302, 303, 307, 308, 300, 399])
         extra = [(b"Location", rng.choice([b"/x", b"http://b.test/y", b"../z"]))]
         if rng.random() < 0.6:
@@ -52,7 +74,7 @@ def gen_one(rng, nfields=None, force_redirect=False):
             s.add(rng.randrange(0, n))
         s.add(n - 1)
         cuts = sorted(s)
-    ops = [op_new("GET"), "proceed", "write_head #4096", "proceed", "stream %s" % hx(stream)]
+    ops = prelude(rng, kind) + ["stream %s" % hx(stream)]
     pos = 0
     known_from = None
     # first prefix after which the (complete lines of the) prefix contain location for a 3xx head
@@ -83,6 +105,10 @@ def generate(rng, tier, mult):
     count = (300 if tier == "quick" else 5000) * mult
     out = [gen_one(rng) for _ in range(count)]
     out += [gen_one(rng, nfields=rng.choice([0, 1, 2]), force_redirect=True) for _ in range(count // 6)]
+    # interim statuses other than 100 on every way of reaching RecvResponse (a pending Expect handshake must only swallow a 100)
+    for kind in ("get", "post", "expect-continued", "expect-giveup", "expect-partial"):
+        for st in (101, 102, 103, 199):
+            out.append(gen_one(rng, nfields=rng.choice([0, 1, 2]), kind=kind, status=st))
     return out
 
 
